@@ -1,3 +1,4 @@
+import GPy.C16.Gen
 import GPy.C15.Gen
 import GPy.C07.Gen
 
@@ -9,5 +10,6 @@ def main (args : List String) : IO UInt32 := do
     match prop with
     | "C07" => GPy.C07.genMain tier seed; return 0
     | "C15" => GPy.C15.genMain tier seed; return 0
+    | "C16" => GPy.C16.genMain tier seed; return 0
     | _ => IO.eprintln s!"unknown property {prop}"; return 2
   | _ => IO.eprintln "usage: gpymodel <Cxx> <quick|thorough> <seed>"; return 2
